@@ -1121,6 +1121,12 @@ func (e *Env) call(n *CNode) Val {
 		a := args()
 		k := e.theVisKey()
 		return Val{t: fmt.Sprintf("(select %s %s)", g.get(e.state, k), a[0].t), ty: tBool}
+	case "ownChannels":
+		// ownChannels(f): the function value f is a closure all of whose captured channels (and captured objects that
+		// could reach one) were made by the function that built it - a send inside f can only reach its creator
+		v := e.expr(n.Args[0])
+		g.declareFun("|$ownChans|", "(Int) Bool")
+		return Val{t: fmt.Sprintf("(|$ownChans| %s)", v.t), ty: tBool}
 	case "madeHere":
 		// madeHere(x): the object x was allocated by the function under verification (after its entry).  In a callee's
 		// precondition, evaluated at a call site: allocated by the caller - "the caller hands over an object of its own".
